@@ -76,7 +76,7 @@ type c02Txn struct {
 }
 
 func TestC02(t *testing.T) {
-	V.Rule("lab: (a) responses with 1-6 Via entries over 1-6 header lines (full/compact/odd-case names, ',' / ', ' joins), the entry beneath the top one naming a harness endpoint by IPv4 literal or host-table name (or an unresolvable name), transports UDP/TCP/udp/Tcp and unsupported TLS/SCTP/WS, port present or absent (5060), received / rport absent / valueless / numeric / non-numeric, maddr, ttl, unknown parameters in any order, malformed second entries, every status class, sent from backend and non-backend addresses; (b) rapid state-machine histories over 4 user agents (UDP and TCP ingress, own Via stacks of 1-3 entries, rport requested or not) and UDP/TCP backends answering outstanding transactions in any order, 1xx before final. Oracle: (a) reference model for the destination (received over sent-by host; numeric rport over sent-by port only with received; default 5060; unsupported transport, unresolvable host, no or undecodable remaining Via => nothing), exactly one reception there and nothing elsewhere after a FIFO barrier, remaining Via entries textually intact and in order; (b) the response arrives at the socket/connection the request came from with exactly the Via stack the user agent sent (first entry modulo received/rport). non-trivial = >= 3 Via entries in >= 2 lines, or received/rport present, or a drop case; for (b) >= 2 transactions open at once; distinct by message / history")
+	V.Rule("lab: (c) one configuration with two entries under proxies: whose host tables map the same name to different machines (and the global table to a third): responses whose next Via names it, sent to either service in any order, go where the receiving service's table says. (a) responses with 1-6 Via entries over 1-6 header lines (full/compact/odd-case names, ',' / ', ' joins), the entry beneath the top one naming a harness endpoint by IPv4 literal or host-table name (or an unresolvable name), transports UDP/TCP/udp/Tcp and unsupported TLS/SCTP/WS, port present or absent (5060), received / rport absent / valueless / numeric / non-numeric, maddr, ttl, unknown parameters in any order, malformed second entries, every status class, sent from backend and non-backend addresses; (b) rapid state-machine histories over 4 user agents (UDP and TCP ingress, own Via stacks of 1-3 entries, rport requested or not) and UDP/TCP backends answering outstanding transactions in any order, 1xx before final. Oracle: (a) reference model for the destination (received over sent-by host; numeric rport over sent-by port only with received; default 5060; unsupported transport, unresolvable host, no or undecodable remaining Via => nothing), exactly one reception there and nothing elsewhere after a FIFO barrier, remaining Via entries textually intact and in order; (b) the response arrives at the socket/connection the request came from with exactly the Via stack the user agent sent (first entry modulo received/rport). non-trivial = >= 3 Via entries in >= 2 lines, or received/rport present, or a drop case; for (b) >= 2 transactions open at once; distinct by message / history")
 	V.Require("burst of requests answered", "same Via lines sent again", "relayed:udp", "relayed:tcp", "drop:unsupported transport", "drop:no remaining via", "drop:malformed via", "drop:unresolvable host", "received present", "rport numeric with received", "rport without received (ignored)", "port absent (5060)", ">=3 vias in >=2 lines", "history: >=2 transactions open", "history: answered out of order", "history: tcp ingress", "history: tcp backend")
 	svc, err := newStdSvc(stdVariant{NoReceived: [3]string{"", "true", ""}})
 	if err != nil {
@@ -593,5 +593,81 @@ func TestC02(t *testing.T) {
 				failf(rt, "the response to %s, sent from %s:%d inside a burst of %d requests, returned to %s instead\nburst: %v", p.id, p.src.ip, p.src.port, k, rs[0].where(), desc)
 			}
 		}
+	})
+
+	c02TwoServices(t)
+}
+
+// c02TwoServices: one configuration file with two entries under proxies:. A
+// name in the Via chain is resolved by the host table of the service whose
+// listener received the response - its own entries first, then the global ones.
+func c02TwoServices(t *testing.T) {
+	V.Require("two services: same name, different tables")
+	s, err := newStdSvc(stdVariant{Two: true})
+	if err != nil {
+		V.HarnessError(t, "cannot start lab instance: %v", err)
+	}
+	type svcL struct {
+		name string
+		l    labListenCfg
+		// where each name leads for this service ("" = unknown: the response is dropped)
+		table map[string]string
+	}
+	svcs := []svcL{
+		{"svc.test (first entry)", s.in.cfg.Listens[0], map[string]string{"hop-x.test": s.ip(21), "global-hop.test": s.ip(21), "only-b.test": "", "hop-c.test": s.ip(25)}},
+		{"svc-b.test (second entry)", s.in.cfg.More[0].Listens[0], map[string]string{"hop-x.test": s.ip(25), "global-hop.test": s.ip(21), "only-b.test": s.ip(22), "hop-c.test": ""}},
+	}
+	src := s.uas[3]
+	rcheck(t, "two-services", V.N(120, 1200), func(rt *rapid.T) {
+		k := rapid.IntRange(1, 6).Draw(rt, "responses")
+		var hist []string
+		for i := 0; i < k; i++ {
+			sv := svcs[rapid.IntRange(0, 1).Draw(rt, "service")]
+			name := rapid.SampledFrom([]string{"hop-x.test", "hop-x.test", "global-hop.test", "only-b.test", "hop-c.test"}).Draw(rt, "name")
+			port := rapid.SampledFrom([]int{5070, 5060, 0}).Draw(rt, "port")
+			sentBy := name
+			if port != 0 {
+				sentBy = fmt.Sprintf("%s:%d", name, port)
+			} else {
+				port = 5060
+			}
+			id := s.nextID("c02two-")
+			wire := []byte(fmt.Sprintf("SIP/2.0 200 OK\r\nVia: SIP/2.0/UDP %s:%d;branch=z9hG4bKp%s\r\nVia: SIP/2.0/UDP %s;branch=z9hG4bKu%s\r\nFrom: <sip:a@a.example>;tag=f\r\nTo: <sip:b@b.example>;tag=t\r\nCall-ID: %s\r\nCSeq: 1 OPTIONS\r\nContent-Length: 0\r\n\r\n", sv.l.Addr, sv.l.UDPPort, id, sentBy, id, id))
+			hist = append(hist, fmt.Sprintf("response with next Via %s sent to %s", sentBy, sv.name))
+			V.Journal(t.Name()+"/two-services", hist)
+			send := func(b []byte) error { return src.sendUDP(sv.l.Addr, sv.l.UDPPort, b) }
+			s.in.expect(wire)
+			if err := send(wire); err != nil {
+				V.HarnessError(rt, "send: %v", err)
+			}
+			want := sv.table[name]
+			min := 1
+			if want == "" {
+				min = 0
+			}
+			rs, err := s.in.settle(send, min)
+			if _, lost := err.(labLost); lost {
+				failf(rt, "%v\nhistory: %v", err, hist)
+			} else if err != nil {
+				V.HarnessError(rt, "%v", err)
+			}
+			got := labMessages(rs)
+			V.Eval()
+			if want == "" {
+				if len(got) != 0 {
+					failf(rt, "%s does not know %s (neither its own nor the global host table): the response must be dropped; receptions:\n%shistory: %v", sv.name, name, labDescribe(got), hist)
+				}
+				V.Class("two services: name known to the other service only")
+				continue
+			}
+			if len(got) != 1 || got[0].ep == nil || got[0].ep.ip != want || got[0].ep.port != port || got[0].tcp != nil {
+				failf(rt, "%s resolves %s to %s: the response must arrive at %s:%d over UDP and nowhere else; receptions:\n%shistory: %v", sv.name, name, want, want, port, labDescribe(got), hist)
+			}
+			if name == "hop-x.test" {
+				V.Class("two services: same name, different tables")
+				V.NonTrivial(strings.Join(hist, "|"))
+			}
+		}
+		V.SampleEvery(30, func() any { return hist })
 	})
 }
